@@ -457,6 +457,68 @@ fn run_mask(f: &[&str]) -> Result<String, String> {
     }
 }
 
+/// FS id pre ops rds wrs fls : FrameSocket API (read / write / send / flush on raw frames)
+fn run_framesocket(f: &[&str]) -> Result<(String, String), String> {
+    let pre = unhex(f[2]);
+    let script = Script::parse(&list(f[4]), &list(f[5]), &list(f[6]))?;
+    let mut fs = if pre.is_empty() { FrameSocket::new(script) } else { FrameSocket::from_partially_read(script, pre) };
+    let mut out = String::new();
+    let mut upto = 0usize;
+    for (i, o) in list(f[3]).into_iter().enumerate() {
+        let p: Vec<&str> = o.split(':').collect();
+        let r = catch_unwind(AssertUnwindSafe(|| -> Result<String, String> {
+            Ok(match p.as_slice() {
+                ["r", m] => match fs.read(opt_usize(m)) {
+                    Ok(Some(fr)) => format!("ok:F:{}", frame_s(&fr)),
+                    Ok(None) => "ok:none".into(),
+                    Err(e) => error_s(&e),
+                },
+                ["f"] => match fs.flush() {
+                    Ok(()) => "ok".into(),
+                    Err(e) => error_s(&e),
+                },
+                ["w", fl, opc, m, h] => {
+                    match fs.write(Frame::from_payload(header_of(fl, opc, m)?, Bytes::from(unhex(h)))) {
+                        Ok(()) => "ok".into(),
+                        Err(e) => error_s(&e),
+                    }
+                }
+                ["s", fl, opc, m, h] => {
+                    match fs.send(Frame::from_payload(header_of(fl, opc, m)?, Bytes::from(unhex(h)))) {
+                        Ok(()) => "ok".into(),
+                        Err(e) => error_s(&e),
+                    }
+                }
+                _ => return Err(format!("bad fs op {o}")),
+            })
+        }));
+        if i > 0 {
+            out.push_str(" | ");
+        }
+        let panicked = r.is_err();
+        match r {
+            Ok(Ok(s)) => out.push_str(&s),
+            Ok(Err(e)) => return Err(e),
+            Err(_) => out.push_str("panic:rust"),
+        }
+        let log = &fs.get_ref().log;
+        for ev in &log[upto..] {
+            out.push(' ');
+            out.push_str(ev);
+        }
+        upto = log.len();
+        if panicked {
+            break;
+        }
+    }
+    let mut g: Vec<String> = f.iter().map(|x| x.to_string()).collect();
+    let s = fs.get_ref();
+    g[4] = join_or_dash(&s.actual_rds);
+    g[5] = join_or_dash(&s.actual_wrs);
+    g[6] = join_or_dash(&s.actual_fls);
+    Ok((g.join(" "), out))
+}
+
 /// KS id role n : write n small binary messages on a fresh socket with an accepting transport and report statistics of
 /// the mask keys found on the wire (meaningful only in the build WITHOUT the deterministic-mask hook)
 fn run_key_stats(f: &[&str]) -> String {
@@ -560,6 +622,10 @@ fn main() {
                 "U8" => (line.clone(), run_utf8(&f)),
                 "MK" => (line.clone(), run_mask(&f).unwrap_or_else(|e| format!("bad-case:{e}"))),
                 "KS" => (line.clone(), run_key_stats(&f)),
+                "FS" => match run_framesocket(&f) {
+                    Ok((m, t)) => (m, t),
+                    Err(e) => (line.clone(), format!("bad-case:{e}")),
+                },
                 "KR" => (line.clone(), hs::run_request_key_stats(&f)),
                 k => match hs::run(k, &f) {
                     Some((m, t)) => (m, t),
